@@ -394,10 +394,24 @@ class OsProxy:
             self._shim.unsynced.discard(dst)
         return res
 
+    def replace(self, src, dst):
+        # on POSIX os.replace is os.rename: the same atomic, overwriting system call
+        return self.rename(src, dst)
+
     def remove(self, path):
         self._shim.op("remove", os.path.basename(path))
         res = os.remove(path)
         self._shim.unsynced.discard(path)
+        return res
+
+    def unlink(self, path):
+        return self.remove(path)
+
+    def link(self, src, dst):
+        self._shim.op("link", os.path.basename(src), os.path.basename(dst))
+        res = os.link(src, dst)
+        if src in self._shim.unsynced:
+            self._shim.unsynced.add(dst)
         return res
 
     def access(self, path, mode):
